@@ -983,12 +983,25 @@ def hidden_dirs_case(pr):
     r = pr.run("t")
     if not _ran(pr):
         return {"property": ["C15", "C02"], "expected": "src/.config/settings.txt (a matching file in a hidden directory below the listed path) was rewritten: the script runs", "observed": "skipped", "zinoma": r.brief()}
-    r = pr.run("--clean")
-    for f in ("public/index.html", "public/.well-known/verify.html", "public/.cache/x/p.html"):
-        if pr.exists(f):
-            return {"property": ["C12", "C15"], "expected": "--clean removes every matching file beneath the declared output path, hidden directories included: %s" % f, "observed": "%s is still there" % f, "zinoma": r.brief()}
-    if not pr.exists("public/.cache/keep.bin"):
-        return {"property": "C12", "expected": "non-matching files survive", "observed": "public/.cache/keep.bin deleted"}
+    return None
+
+
+def hidden_dirs_clean_case(pr):
+    """--clean and matching output files in hidden directories"""
+    pr.write("src/a.txt", "a")
+    body = "mkdir -p public/.well-known public/.cache/x && echo 1 > public/index.html && echo 1 > public/.well-known/verify.html && echo 1 > public/.cache/x/p.html && echo 1 > public/.cache/keep.bin"
+    t = _t([{"paths": ["src"]}], [{"paths": ["public"], "extensions": ["html"]}], body=body)
+    pr.write("zinoma.yml", yml({"t": t}))
+    _run_ok(pr, "t")
+    for args in (["--clean"], ["--clean", "t"]):
+        r = pr.run(*args)
+        if args == ["--clean"]:
+            for f in ("public/index.html", "public/.well-known/verify.html", "public/.cache/x/p.html"):
+                if pr.exists(f):
+                    return {"property": ["C12", "C15"], "expected": "--clean removes every matching file beneath the declared output path, hidden directories included: %s" % f, "observed": "%s is still there" % f, "zinoma": r.brief()}
+        if not pr.exists("public/.cache/keep.bin"):
+            return {"property": "C12", "expected": "non-matching files survive `zinoma %s`" % " ".join(args), "observed": "public/.cache/keep.bin deleted"}
+        _run_ok(pr, "t")
     return None
 
 
@@ -1082,6 +1095,7 @@ def cases(seed, tier="quick"):
         C("nested-project-state", nested_project_state_case, "a project nested below another target's input path"),
         C("output-of-outputless-producer", output_of_outputless_producer_case, "X.output of a producer that declares no output"),
         C("hidden-dirs", hidden_dirs_case, "hidden directories below a declared path"),
+        C("hidden-dirs-clean", hidden_dirs_clean_case, "matching output files in hidden directories are cleaned"),
         C("symlink-alias", symlink_alias_case, "a link to a file that is listed too"),
         C("xoutput-symlink", xoutput_symlink_case, "a producer publishing its output as a link"),
         C("unrelated-failure-keeps-record", unrelated_failure_does_not_lose_record_case, "an unrelated failure while T records its outputs"),
